@@ -113,8 +113,9 @@ def crash(k: int, cut: int) -> bool:
         w.crash(cut)
     got = lookup(fs, 'abc.py')
     ok = got is None or got == {'loaded': full}
-    if finished and st[0] == 'done':
-        ok = ok and got == {'loaded': full}
+    if finished:
+        # no fault was injected: the store completes and the entry is there
+        ok = ok and st[0] == 'done' and got == {'loaded': full}
     # nothing else in the directory may be found by an exact-name lookup of a module
     for name in fs.names:
         if name != DIR + '/abc.py' and name.endswith('.py'):
